@@ -10,7 +10,7 @@
 //! is simplest-first: rank, then element count, then lexicographic shape, then lexicographic index):
 //!   from_vec_valid, index_row_major, get_index, from_slice, new_writes, iter_order,
 //!   index_mut_writes_one, oob_panics, ctor_rejects_zero_extent, ctor_rejects_bad_len,
-//!   io_roundtrip, write_format, eq_data, eq_shape, clone, clone_from,
+//!   io_roundtrip, write_format, io_short_reads, io_reader_refill, eq_data, eq_shape, clone, clone_from,
 //!   elem_index, elem_eq, elem_clone, elem_clone_from.
 //!
 //! Writer history (families io_roundtrip, write_format): a tensor is rarely the first thing written through a
@@ -19,6 +19,14 @@
 //! until the sink receives its first write), so that every separator and element within the first W+1 bytes of
 //! the tensor's text is the write that meets the full buffer.  The text is read back from where the tensor
 //! starts and must not depend on the fill level.
+//!
+//! Reader history and sources (families io_short_reads, io_reader_refill): a tensor is rarely the only thing read
+//! through a Reader and a source need not hand over its bytes in one piece, so two tensors of every shape and
+//! element kind (all integer widths, String, a (String, i128) tuple) are written through one Writer and read back
+//! through ONE Reader (a) from a `Read` that delivers the text in two pieces cut at every position, and k bytes at
+//! a time, (b) behind a padding token sized so that the Reader's own refill of its full buffer (size OBSERVED)
+//! falls at every position of the text: inside every kind of token, right behind a minus sign, right before and
+//! after a token, and at the very end of the input.
 //!
 //! Element types (families elem_*): the statement does not restrict the element type, so the clauses that do
 //! not need IO are repeated for degenerate instantiations — zero-sized types (`()`, a unit struct: every Vec
@@ -773,6 +781,387 @@ fn check_io<const D: usize>(acc: &mut Acc, dims: [usize; D], case: IoCase) -> Op
     written
 }
 
+// ---------------------------------------------------------------------------------------------
+// the Reader's side of the round trip: where in the Reader's input the tensors' text lies and in what pieces the
+// source delivers it (families io_short_reads, io_reader_refill)
+
+/// what a `Pieces` source saw of the Reader
+#[derive(Default)]
+struct ReadLog {
+    /// length of the buffer offered by the first `read` call (= how much the Reader can hold)
+    first_request: usize,
+    /// stream offsets (strictly inside the stream) at which a later `read` call started: the places where the
+    /// Reader had used up what it held and went back to its source
+    resumed_at: Vec<usize>,
+}
+
+/// A source that delivers `data` in pieces, as a pipe or a socket may (short reads are within the `Read`
+/// contract): the first call gives at most `first` bytes (0: no special first piece), every later call at most
+/// `piece` bytes (0: all the rest); a call never gives less than that unless the caller's buffer or the data end.
+struct Pieces<'a> {
+    data: &'a [u8],
+    pos: usize,
+    calls: usize,
+    first: usize,
+    piece: usize,
+    log: &'a RefCell<ReadLog>,
+}
+
+impl std::io::Read for Pieces<'_> {
+    fn read(&mut self, buf: &mut [u8]) -> std::io::Result<usize> {
+        let mut log = self.log.borrow_mut();
+        if self.calls == 0 {
+            log.first_request = buf.len();
+        } else if self.pos < self.data.len() {
+            log.resumed_at.push(self.pos);
+        }
+        let limit = match (self.calls, self.first, self.piece) {
+            (0, f, _) if f > 0 => f,
+            (_, _, 0) => usize::MAX,
+            (_, _, p) => p,
+        };
+        self.calls += 1;
+        let n = limit.min(buf.len()).min(self.data.len() - self.pos);
+        buf[..n].copy_from_slice(&self.data[self.pos..self.pos + n]);
+        self.pos += n;
+        Ok(n)
+    }
+}
+
+/// The Reader's buffer size, observed: the length of the buffer a fresh Reader offers its source in the first
+/// `read` call (what the Reader then makes of the input is not judged here).  None if it never asks.
+fn observe_reader_buffer() -> Option<usize> {
+    let log = RefCell::new(ReadLog::default());
+    let _ = catch(|| Reader::new(Box::new(Pieces { data: b"x y", pos: 0, calls: 0, first: 0, piece: 0, log: &log })).read::<String>());
+    let b = log.borrow().first_request;
+    (b > 0).then_some(b)
+}
+
+struct ReadObs {
+    /// everything the Writer produced: the padding token and its newline (if any), tensor A, a newline, tensor B
+    stream: Vec<u8>,
+    /// offset of tensor A's text in the stream
+    tensor_at: usize,
+    log: ReadLog,
+}
+
+/// words for a failure message: how the Reader got the text
+fn delivered(pad: usize, first: usize, piece: usize) -> String {
+    let mut s = String::new();
+    if pad > 0 {
+        s.push_str(&format!("after a token of {pad} bytes and a newline read through the same Reader, "));
+    }
+    match (first, piece) {
+        (0, 0) => s.push_str("from a source that gives all it has in every read"),
+        (f, 0) => s.push_str(&format!("from a source that gives {f} bytes in its first read and the rest in the second")),
+        (0, p) => s.push_str(&format!("from a source that gives {p} byte(s) per read")),
+        (f, p) => s.push_str(&format!("from a source that gives {f} bytes in its first read and then {p} byte(s) per read")),
+    }
+    s
+}
+
+/// Through ONE real Writer: a padding token of `pad` filler bytes and a newline (if pad > 0), tensor A, a newline,
+/// tensor B.  Through ONE real Reader over a `Pieces` source of that stream: the padding token (a String), then
+/// Tensor::read with the same shape twice.  The token and both tensors must come back as written.
+fn atom_read_stream<T: Clone + PartialEq + Debug + Readable + Writable, const D: usize>(dims: [usize; D], a: &[T], b: &[T], pad: usize, first: usize, piece: usize) -> Result<ReadObs, String> {
+    let head = format!("shape {}: ", cd(&dims));
+    let build = |d: &[T]| catch(|| Tensor::<T, D>::from_vec(dims, d.to_vec())).map_err(|p| format!("{head}from_vec panicked: {p}"));
+    let (ta, tb) = (build(a)?, build(b)?);
+    let pad_token = String::from_utf8(vec![FILLER; pad]).unwrap();
+    let mut stream: Vec<u8> = Vec::with_capacity(pad + 64);
+    catch(|| {
+        let mut w = Writer::new(Box::new(&mut stream));
+        if pad > 0 {
+            w.write(&pad_token);
+            w.write_char('\n');
+        }
+        w.write(&ta);
+        w.write_char('\n');
+        w.write(&tb);
+    })
+    .map_err(|p| format!("{head}writing two tensors through one Writer panicked: {p}"))?;
+    let tensor_at = if pad > 0 { pad + 1 } else { 0 };
+    let how = delivered(pad, first, piece);
+    let text = show(&stream[tensor_at.min(stream.len())..]);
+    let log = RefCell::new(ReadLog::default());
+    let (token, xa, xb) = catch(|| {
+        let mut r = Reader::new(Box::new(Pieces { data: &stream, pos: 0, calls: 0, first, piece, log: &log }));
+        let token = (pad > 0).then(|| r.read::<String>());
+        let xa = Tensor::<T, D>::read(dims, &mut r);
+        let xb = Tensor::<T, D>::read(dims, &mut r);
+        (token, xa, xb)
+    })
+    .map_err(|p| format!("{head}wrote two tensors, text {text}; reading them back {how} panicked: {p}"))?;
+    if let Some(tk) = token {
+        if tk != pad_token {
+            return Err(format!("{head}the {pad}-byte token written before the tensors came back as {} ({} bytes) when read {how}", brief(&tk), tk.len()));
+        }
+    }
+    for (which, back, t, data) in [("first", &xa, &ta, a), ("second", &xb, &tb, b)] {
+        if back.dims() != &dims {
+            return Err(format!("{head}the {which} tensor read back reports dims {}", cd(back.dims())));
+        }
+        let got = data_of(back);
+        if got.as_slice() != data {
+            let k = first_diff(&got, data);
+            return Err(format!(
+                "{head}wrote two tensors, text {text}, and read them back with the same shape {how}: the {which} tensor has {} elements, its element #{k} is {}, written was {}",
+                got.len(),
+                brief(&got.get(k)),
+                brief(&data.get(k))
+            ));
+        }
+        match catch(|| back == t && t == back) {
+            Ok(true) => {}
+            other => return Err(format!("{head}the {which} tensor read back {how} has the same shape and elements but `==` gives {other:?}")),
+        }
+    }
+    Ok(ReadObs { stream, tensor_at, log: log.into_inner() })
+}
+
+/// element kinds of the Reader-side families: the IO_TYPES, every other integer width the Reader parses, and a
+/// tuple element (a String token followed by an integer token)
+const TUPLE_TYPE: &str = "(String,i128)";
+const READ_TYPES: &[&str] = &["i32", "u64", "u128", "i128", "String", TUPLE_TYPE, "i8", "i16", "i64", "isize", "u8", "u16", "u32", "usize"];
+/// the first of them get the padding sweep for every shape, the others for shapes of at most LONG_MAX_ELEMS elements
+const READ_TYPES_SWEPT_FOR_EVERY_SHAPE: usize = 6;
+
+/// boundary values of an integer type: the extremes of every width that fit (longest tokens first, so the first
+/// rotation starts with a minus sign and many digits where the type has them), then short ones
+fn int_vals<T: TryFrom<i128>>() -> Vec<T> {
+    let mut c: Vec<i128> = vec![];
+    for bits in [64u32, 63, 32, 31, 16, 15, 8, 7] {
+        let p = 1i128 << bits;
+        c.extend([-p, p - 1, 1 - p, p]);
+    }
+    c.extend([0, 1, -1, 9, 10, -10, 99, 100, -100]);
+    c.into_iter().filter_map(|x| T::try_from(x).ok()).collect()
+}
+
+fn tuple_vals() -> Vec<(String, i128)> {
+    let s = str_vals();
+    i128_vals().into_iter().enumerate().map(|(k, x)| (s[k % s.len()].clone(), x)).collect()
+}
+
+/// `$f(list, args)` with the value list of the element kind named `$ty` (`$f` is generic in the element type and
+/// returns a Result<_, String>)
+macro_rules! by_read_type {
+    ($ty:expr, $f:ident ( $($a:expr),* )) => {
+        match $ty {
+            "i32" => $f(I32_VALS, $($a),*),
+            "u64" => $f(U64_VALS, $($a),*),
+            "u128" => $f(&u128_vals(), $($a),*),
+            "i128" => $f(&i128_vals(), $($a),*),
+            "String" => $f(&str_vals(), $($a),*),
+            TUPLE_TYPE => $f(&tuple_vals(), $($a),*),
+            "i8" => $f(&int_vals::<i8>(), $($a),*),
+            "i16" => $f(&int_vals::<i16>(), $($a),*),
+            "i64" => $f(&int_vals::<i64>(), $($a),*),
+            "isize" => $f(&int_vals::<isize>(), $($a),*),
+            "u8" => $f(&int_vals::<u8>(), $($a),*),
+            "u16" => $f(&int_vals::<u16>(), $($a),*),
+            "u32" => $f(&int_vals::<u32>(), $($a),*),
+            "usize" => $f(&int_vals::<usize>(), $($a),*),
+            other => Err(format!("unknown element type {other}")),
+        }
+    };
+}
+
+/// One case of the Reader-side families besides the shape: tensor A holds rotation `rot` of the element kind's
+/// value list and tensor B continues the list where A stops; see atom_read_stream for pad / first / piece.
+#[derive(Clone, Copy)]
+struct ReadCase<'a> {
+    ty: &'a str,
+    rot: usize,
+    pad: usize,
+    first: usize,
+    piece: usize,
+}
+
+impl ReadCase<'_> {
+    fn on<T: Clone + PartialEq + Debug + Readable + Writable, const D: usize>(&self, dims: [usize; D], list: &[T]) -> Result<ReadObs, String> {
+        let n = product(&dims);
+        atom_read_stream(dims, &rotated(list, n, self.rot), &rotated(list, n, self.rot + n), self.pad, self.first, self.piece)
+    }
+
+    fn run<const D: usize>(&self, dims: [usize; D]) -> Result<ReadObs, String> {
+        fn go<T: Clone + PartialEq + Debug + Readable + Writable, const D: usize>(list: &[T], c: &ReadCase, dims: [usize; D]) -> Result<ReadObs, String> {
+            c.on(dims, list)
+        }
+        by_read_type!(self.ty, go(self, dims))
+    }
+
+    fn sig(&self, dims: &[usize]) -> String {
+        let mut s = format!("{}:{}:rot={}", self.ty, cd(dims), self.rot);
+        for (name, x) in [("pad", self.pad), ("cut", self.first), ("piece", self.piece)] {
+            if x > 0 {
+                s.push_str(&format!(":{name}={x}"));
+            }
+        }
+        s
+    }
+
+    fn replay(&self, dims: &[usize]) -> Value {
+        json!({"rank": dims.len(), "dims": dims, "ty": self.ty, "rot": self.rot, "pad": self.pad, "first": self.first, "piece": self.piece})
+    }
+
+    fn from_replay(v: &Value) -> Result<ReadCase<'_>, String> {
+        let num = |k: &str| v[k].as_u64().map(|x| x as usize).ok_or(format!("replay: {k}"));
+        let c = ReadCase { ty: v["ty"].as_str().ok_or("replay: ty")?, rot: num("rot")?, pad: num("pad")?, first: num("first")?, piece: num("piece")? };
+        if c.pad > 1 << 24 {
+            return Err("replay: implausible padding".into());
+        }
+        Ok(c)
+    }
+}
+
+/// how far the Reader-side families go (by tier)
+struct ReadPlan {
+    /// observed Reader buffer size (0: could not be observed, io_reader_refill is left out and the run cannot end
+    /// with a clean verdict)
+    rb: usize,
+    /// positions at the head and at the tail of a long text that get a cut of a two-piece source
+    window: usize,
+    /// positions at the head and at the tail of a long text that get the Reader's refill (longer than the longest
+    /// integer token with its separators)
+    refill_window: usize,
+    /// texts up to this length are cut in two at EVERY position
+    all_cuts_up_to: usize,
+    /// uniform piece sizes 1..=max_piece
+    max_piece: usize,
+}
+
+/// positions 0..=len of a text: all of them if len <= all_up_to, else the first and the last `window` ones
+fn positions(len: usize, window: usize, all_up_to: usize) -> Vec<usize> {
+    if len <= all_up_to.max(2 * window) {
+        (0..=len).collect()
+    } else {
+        (0..=window).chain(len - window..=len).collect()
+    }
+}
+
+/// where the Reader went back to its source, by what stands on either side of the place.  Keys, in order: strictly
+/// inside an integer token, right behind an integer's minus sign, strictly inside a String token, right before
+/// a token, right after a token, between two separator bytes.
+type CutKeys = [&'static str; 6];
+const SHORT_CUTS: CutKeys = [
+    "short_reads_cut_inside_integer_token",
+    "short_reads_cut_behind_minus_sign",
+    "short_reads_cut_inside_string_token",
+    "short_reads_cut_right_before_token",
+    "short_reads_cut_right_after_token",
+    "short_reads_cut_between_separators",
+];
+const REFILL_CUTS: CutKeys = [
+    "refill_inside_integer_token",
+    "refill_behind_minus_sign",
+    "refill_inside_string_token",
+    "refill_right_before_token",
+    "refill_right_after_token",
+    "refill_between_separators",
+];
+
+fn classify_cuts(acc: &mut Acc, keys: &CutKeys, ty: &str, obs: &ReadObs) {
+    let s = &obs.stream;
+    let ws = |i: usize| s[i].is_ascii_whitespace();
+    // one pass over the text along the (ascending) places: `started` = tokens of the text that start before `next`
+    let (mut next, mut started) = (obs.tensor_at, 0usize);
+    for &c in &obs.log.resumed_at {
+        if c == 0 || c < obs.tensor_at || c >= s.len() {
+            // inside the padding: not a place in the tensors' text
+            continue;
+        }
+        while next < c {
+            if !ws(next) && (next == 0 || ws(next - 1)) {
+                started += 1;
+            }
+            next += 1;
+        }
+        let key = match (ws(c - 1), ws(c)) {
+            (true, true) => keys[5],
+            (true, false) => keys[3],
+            (false, true) => keys[4],
+            (false, false) => {
+                // the token around the place is number started-1; in the tuple kind tokens alternate String, integer
+                let integer = ty != "String" && (ty != TUPLE_TYPE || (started - 1) % 2 == 1);
+                match (integer, s[c - 1]) {
+                    (true, b'-') => keys[1],
+                    (true, _) => keys[0],
+                    (false, _) => keys[2],
+                }
+            }
+        };
+        acc.add(key, 1);
+    }
+}
+
+/// both Reader-side families for one shape and one element kind
+fn sweep_reads<T: Clone + PartialEq + Debug + Readable + Writable, const D: usize>(list: &[T], acc: &mut Acc, dims: [usize; D], ty: &'static str, sweep_pad: bool, plan: &ReadPlan) -> Result<(), String> {
+    let n = product(&dims);
+    let evals = 4 * n as u64 + 5;
+    let run = |acc: &mut Acc, fam: &'static str, keys: &CutKeys, c: ReadCase| -> Option<ReadObs> {
+        let r = c.on(dims, list);
+        if let Ok(obs) = &r {
+            classify_cuts(acc, keys, ty, obs);
+        }
+        let obs = match r {
+            Ok(o) => (Some(o), Ok(())),
+            Err(m) => (None, Err(m)),
+        };
+        acc.check(fam, evals, obs.1, || c.sig(&dims), || c.replay(&dims));
+        obs.0
+    };
+    let case = |rot: usize, pad: usize, first: usize, piece: usize| ReadCase { ty, rot, pad, first, piece };
+    acc.add("read_type_shape_combinations", 1);
+
+    // the whole text in one read
+    let Some(plain) = run(acc, "io_short_reads", &SHORT_CUTS, case(0, 0, 0, 0)) else { return Ok(()) };
+    let len = plain.stream.len();
+    if plan.rb > 0 && plain.log.first_request != plan.rb {
+        acc.add("reader_offered_another_buffer_size_than_observed", 1);
+    }
+
+    // two pieces, cut at every position (long texts: at every position near the head and near the tail)
+    for cut in positions(len, plan.window, plan.all_cuts_up_to) {
+        if cut > 0 && cut < len {
+            acc.add("short_reads_two_piece_cases", 1);
+            run(acc, "io_short_reads", &SHORT_CUTS, case(0, 0, cut, 0));
+        }
+    }
+    // k bytes per read
+    for piece in 1..=plan.max_piece {
+        run(acc, "io_short_reads", &SHORT_CUTS, case(0, 0, 0, piece));
+    }
+    // small shapes: every value of the list at every position, 1, 2, 3 bytes per read
+    if n <= LONG_MAX_ELEMS {
+        for rot in 1..list.len() {
+            for piece in 1..=3 {
+                run(acc, "io_short_reads", &SHORT_CUTS, case(rot, 0, 0, piece));
+            }
+        }
+    }
+
+    // a source that fills the Reader's buffer: a padding token before the tensors puts the Reader's first refill
+    // at position p of the tensors' text (p = len: the input ends exactly where the buffer does)
+    if sweep_pad && plan.rb > 0 {
+        for p in positions(len, plan.refill_window, 0) {
+            if p + 2 > plan.rb {
+                continue;
+            }
+            let pad = plan.rb - 1 - p;
+            acc.add("reader_refill_cases", 1);
+            if let Some(obs) = run(acc, "io_reader_refill", &REFILL_CUTS, case(0, pad, 0, 0)) {
+                if p == len && obs.stream.len() == plan.rb && obs.log.resumed_at.is_empty() {
+                    acc.add("refill_met_end_of_input", 1);
+                } else if obs.log.resumed_at == [pad + 1 + p] {
+                    acc.add("refill_at_the_planned_position", 1);
+                }
+            }
+        }
+    }
+    Ok(())
+}
+
 /// equal shape and equal elements (built three different ways) must compare equal
 fn atom_eq_same<const D: usize>(dims: [usize; D]) -> Result<(), String> {
     let n = product(&dims);
@@ -1331,7 +1720,7 @@ fn to_arr<const D: usize>(v: &[usize]) -> [usize; D] {
     a
 }
 
-fn check_shape<const D: usize>(dv: &[usize], peers: &[Vec<usize>], me: usize, fills: &Fills) -> Acc {
+fn check_shape<const D: usize>(dv: &[usize], peers: &[Vec<usize>], me: usize, fills: &Fills, plan: &ReadPlan) -> Acc {
     let mut acc = Acc::default();
     let dims: [usize; D] = to_arr(dv);
     let n = product(&dims);
@@ -1512,6 +1901,13 @@ fn check_shape<const D: usize>(dv: &[usize], peers: &[Vec<usize>], me: usize, fi
             }
         }
     }
+    // the Reader's side: short reads of the source, and the Reader's own refill, at every place of the text
+    for (k, ty) in READ_TYPES.iter().enumerate() {
+        let sweep_pad = k < READ_TYPES_SWEPT_FOR_EVERY_SHAPE || n <= LONG_MAX_ELEMS;
+        if let Err(m) = by_read_type!(*ty, sweep_reads(&mut acc, dims, ty, sweep_pad, plan)) {
+            panic!("{m}");
+        }
+    }
     acc.add("skipped_out_of_domain", STR_CANDIDATES.iter().filter(|s| !str_in_domain(s)).count() as u64);
 
     // equality
@@ -1650,6 +2046,7 @@ fn confirm_d<const D: usize>(v: &Value) -> Result<(), String> {
         "oob_panics" => atom_oob(&build(dims)?, &dims, op, idx()?),
         "ctor_rejects_bad_len" => atom_bad_len(op, dims, v["len"].as_u64().ok_or("replay: len")? as usize),
         "io_roundtrip" | "write_format" => IoCase::from_replay(v)?.run(dims, fam == "write_format").map(|_| ()),
+        "io_short_reads" | "io_reader_refill" => ReadCase::from_replay(v)?.run(dims).map(|_| ()),
         "eq_data" => match v["kind"].as_str() {
             Some("same") => atom_eq_same(dims),
             _ => atom_eq_changed(dims, v["k"].as_u64().ok_or("replay: k")? as usize),
@@ -1723,6 +2120,8 @@ const FAMILIES: &[&str] = &[
     "ctor_rejects_bad_len",
     "io_roundtrip",
     "write_format",
+    "io_short_reads",
+    "io_reader_refill",
     "eq_data",
     "eq_shape",
     "clone",
@@ -1755,6 +2154,16 @@ fn main() {
         )),
     };
 
+    // the Reader's buffer size, observed the same way
+    // (a Reader that does not even ask its source plausibly is for the round-trip families to judge, not for this
+    // observation: the run goes on without io_reader_refill and may end with a violation, never with OK)
+    let observed_rb = (observe_reader_buffer(), observe_reader_buffer());
+    let rb = match observed_rb {
+        (Some(rb), Some(rb2)) if rb == rb2 && rb >= 4 * FILL_WINDOW_MAX => rb,
+        _ => 0,
+    };
+    let plan = ReadPlan { rb, window: args.tier.pick(64, 128), refill_window: args.tier.pick(48, 128), all_cuts_up_to: args.tier.pick(512, 2048), max_piece: args.tier.pick(44, 64) };
+
     // shapes, simplest first: rank, element count, lexicographic
     let mut per_rank: Vec<Vec<Vec<usize>>> = vec![];
     for d in 1..=MAX_RANK {
@@ -1780,7 +2189,7 @@ fn main() {
         .par_iter()
         .map(|&(r, i)| {
             let peers = &per_rank[r];
-            by_rank!(r + 1, check_shape(&peers[i], peers, i, &fills))
+            by_rank!(r + 1, check_shape(&peers[i], peers, i, &fills, &plan))
         })
         .collect();
     let mut total = Acc::default();
@@ -1823,12 +2232,18 @@ fn main() {
     run.cov("observed_writer_buffer_size", fills.b as u64);
     run.cov("writer_fill_levels", json!({"besides_0_from": fills.levels[0], "to": fills.levels[fills.levels.len() - 1], "count": fills.levels.len()}));
     run.cov("elem_types", json!(ELEM_TYPES));
+    run.cov("observed_reader_buffer_size", plan.rb as u64);
+    run.cov("read_types", json!(READ_TYPES));
+    run.cov(
+        "read_plan",
+        json!({"two_piece_cut_at_every_position_of_texts_up_to": plan.all_cuts_up_to.max(2 * plan.window), "else_head_and_tail_positions": plan.window, "bytes_per_read_from_1_to": plan.max_piece, "refill_at_every_position_of_texts_up_to": 2 * plan.refill_window, "else_refill_head_and_tail_positions": plan.refill_window}),
+    );
     run.cov("max_rank", MAX_RANK as u64);
     run.cov("max_extent", max_extent as u64);
     run.cov("families", json!(FAMILIES));
     run.cov(
         "rule",
-        "every shape of rank 1..=4 with extents 1..=max_extent (ordered by rank, element count, lexicographic); per shape: every valid multi-index (odometer, last coordinate fastest; the k-th must address storage element k of from_vec(10,11,…)) for Index, get_index and a write through IndexMut; from_slice, new + one write per index, iter/iter_mut/into_iter; every index with exactly one coordinate set to extent, extent+1 or usize::MAX and all other coordinates over all valid values, for get_index, Index and IndexMut (must panic); data lengths 0, n-1, n+1 for from_vec/from_slice (must panic); every shape with extents 0..=max_extent containing a 0 for new, from_vec(empty), from_slice(empty), Tensor::read (must panic); write→Tensor::read round trip and text layout for i32, u64, u128, i128 and String elements with every rotation of a boundary value list (the 128-bit lists hold every power of ten with its neighbours and values with zeros directly below a digit-group boundary); == for same shape same data, same shape one element changed (every position), and every unordered pair of distinct shapes of the same rank; copies: t.clone() for every shape and target.clone_from(&source) for every ORDERED pair of same-rank shapes (target of the same shape, of another shape with the same element count, with more elements, with fewer elements; the target holds 5000,5001,… before the call), the copy being examined like a constructed tensor: dims()/dim(i) are the source's, iter() and every valid index through Index and get_index give the row-major sequence, every index with one coordinate = its extent (others over all valid values) panics, copy == source both ways, write → Tensor::read with the source's shape gives the source back, a write through IndexMut at the last index changes exactly the last element. Writer history: io_roundtrip and write_format also run, for every shape and element type with the first rotation of its list, with `fill` bytes of earlier output ('#' filler) pending in the same Writer, for every fill in observed_writer_buffer_size-W..=observed_writer_buffer_size+1 (W = 64 quick, 256 thorough; the buffer size is observed by feeding single bytes until the sink is offered its first write): the filler must arrive intact, and the text after it must read back (from where the tensor starts) as the tensor and be the documented layout; flush_forced_by_* count the cases in which the sink's first write ended inside the tensor's text, by the piece (space, newline, minus sign, element) that no longer fitted. Buffer-sized elements: for every shape of at most 4 elements, io_roundtrip and write_format with every rotation of a String list that alternates short tokens with tokens of observed_writer_buffer_size-1, exactly that, and +1 bytes, so an element that cannot share the buffer with what was written before it stands at every position. Element types (elem_*): for T in (), a unit struct, bool, u8, a 24-byte struct (values differ in the last field) and String, per shape: from_vec / from_slice / new + one write per index examined (dims(), iter(), every valid index through Index and get_index, every index with one coordinate = extent or usize::MAX rejected by Index, get_index and IndexMut without changing the tensor, a write at every valid index changes exactly that element); == of a tensor with itself, with its clone, with one rebuilt from a slice (true), with one element changed at every position (false; types with a second value), with every other shape of the same rank holding the same element sequence, equal or different element count (false, both ways, != true); clone() examined the same way and independent of its source; target.clone_from(&source) for every ORDERED pair of same-rank shapes (dims, elements, equality both ways, independence). distinct_nontrivial = MEASURED number of distinct (shape, out-of-range index) cases whose flattened offset sum idx*stride is still inside the storage (aliasing is possible without the per-dimension check) + distinct (shape, valid index) cases whose row-major offset differs from the column-major offset (a stride-order error is observable)",
+        "every shape of rank 1..=4 with extents 1..=max_extent (ordered by rank, element count, lexicographic); per shape: every valid multi-index (odometer, last coordinate fastest; the k-th must address storage element k of from_vec(10,11,…)) for Index, get_index and a write through IndexMut; from_slice, new + one write per index, iter/iter_mut/into_iter; every index with exactly one coordinate set to extent, extent+1 or usize::MAX and all other coordinates over all valid values, for get_index, Index and IndexMut (must panic); data lengths 0, n-1, n+1 for from_vec/from_slice (must panic); every shape with extents 0..=max_extent containing a 0 for new, from_vec(empty), from_slice(empty), Tensor::read (must panic); write→Tensor::read round trip and text layout for i32, u64, u128, i128 and String elements with every rotation of a boundary value list (the 128-bit lists hold every power of ten with its neighbours and values with zeros directly below a digit-group boundary); == for same shape same data, same shape one element changed (every position), and every unordered pair of distinct shapes of the same rank; copies: t.clone() for every shape and target.clone_from(&source) for every ORDERED pair of same-rank shapes (target of the same shape, of another shape with the same element count, with more elements, with fewer elements; the target holds 5000,5001,… before the call), the copy being examined like a constructed tensor: dims()/dim(i) are the source's, iter() and every valid index through Index and get_index give the row-major sequence, every index with one coordinate = its extent (others over all valid values) panics, copy == source both ways, write → Tensor::read with the source's shape gives the source back, a write through IndexMut at the last index changes exactly the last element. Writer history: io_roundtrip and write_format also run, for every shape and element type with the first rotation of its list, with `fill` bytes of earlier output ('#' filler) pending in the same Writer, for every fill in observed_writer_buffer_size-W..=observed_writer_buffer_size+1 (W = 64 quick, 256 thorough; the buffer size is observed by feeding single bytes until the sink is offered its first write): the filler must arrive intact, and the text after it must read back (from where the tensor starts) as the tensor and be the documented layout; flush_forced_by_* count the cases in which the sink's first write ended inside the tensor's text, by the piece (space, newline, minus sign, element) that no longer fitted. Buffer-sized elements: for every shape of at most 4 elements, io_roundtrip and write_format with every rotation of a String list that alternates short tokens with tokens of observed_writer_buffer_size-1, exactly that, and +1 bytes, so an element that cannot share the buffer with what was written before it stands at every position. Reader side (io_short_reads, io_reader_refill): for every shape and every element kind of read_types (i32, u64, u128, i128, String, a tuple (String, i128), and the other integer widths i8, i16, i64, isize, u8, u16, u32, usize with the extremes of every width that fit), tensor A (first rotation of the kind's list) and tensor B of the same shape (the list continued) go through ONE Writer, separated by a newline, and are read back through ONE Reader with Tensor::read twice; both must come back exactly. io_short_reads: the Reader's source is a `Read` that delivers the text in pieces: all at once; two pieces cut at EVERY position of the text (texts longer than read_plan.two_piece_cut_at_every_position_of_texts_up_to: every position among the first and the last else_head_and_tail_positions); k bytes per read for every k in 1..=bytes_per_read_from_1_to; and for shapes of at most 4 elements every rotation of the list with 1, 2 and 3 bytes per read, so every listed value is split behind every one of its bytes. io_reader_refill: the source fills the Reader's buffer completely, and a padding token ('#' filler, written through the same Writer and read as a String through the same Reader, must come back intact) and a newline before the tensors are sized from the OBSERVED Reader buffer size (length of the buffer a fresh Reader offers its source) so that the Reader's first refill falls at position p of the tensors' text, for every p in 0..=length (longer texts: the first and last else_refill_head_and_tail_positions; p = length: the input ends exactly where the buffer does); the first six kinds for every shape, the other widths for shapes of at most 4 elements. short_reads_cut_* / refill_* count the places where the Reader actually went back to its source (recorded by the source), by what stands on either side: strictly inside an integer token, right behind a minus sign, inside a String token, right before / right after a token, between two separator bytes. Element types (elem_*): for T in (), a unit struct, bool, u8, a 24-byte struct (values differ in the last field) and String, per shape: from_vec / from_slice / new + one write per index examined (dims(), iter(), every valid index through Index and get_index, every index with one coordinate = extent or usize::MAX rejected by Index, get_index and IndexMut without changing the tensor, a write at every valid index changes exactly that element); == of a tensor with itself, with its clone, with one rebuilt from a slice (true), with one element changed at every position (false; types with a second value), with every other shape of the same rank holding the same element sequence, equal or different element count (false, both ways, != true); clone() examined the same way and independent of its source; target.clone_from(&source) for every ORDERED pair of same-rank shapes (dims, elements, equality both ways, independence). distinct_nontrivial = MEASURED number of distinct (shape, out-of-range index) cases whose flattened offset sum idx*stride is still inside the storage (aliasing is possible without the per-dimension check) + distinct (shape, valid index) cases whose row-major offset differs from the column-major offset (a stride-order error is observable)",
     );
     run.cov("exhaustive", true);
     run.cov(
@@ -1899,6 +2314,30 @@ fn main() {
     if !total.has("io_roundtrip") && !total.has("write_format") && total.get("buffer_sized_element_texts_delivered_in_several_writes") == 0 {
         run.machinery_failure("no text with a buffer-sized element reached the sink in several writes");
     }
+    if total.get("read_type_shape_combinations") != expected_shapes * READ_TYPES.len() as u64 {
+        run.machinery_failure("not every element kind of READ_TYPES went through the Reader-side families for every shape");
+    }
+    if total.get("reader_offered_another_buffer_size_than_observed") != 0 {
+        run.machinery_failure("a Reader offered its source a first buffer of another length than the observed Reader buffer size");
+    }
+    if !total.has("io_short_reads") {
+        for f in SHORT_CUTS {
+            if total.get(f) == 0 {
+                run.machinery_failure(&format!("no source with short reads made the Reader come back for more at such a place: {f} = 0"));
+            }
+        }
+    }
+    if plan.rb == 0 && total.firsts.is_empty() {
+        run.machinery_failure(&format!("could not observe a plausible Reader buffer size (the length of the buffer a fresh Reader offers its source in the first read): {observed_rb:?}"));
+    }
+    // (the refill sweep of a shape and kind is skipped when its plain two-tensor round trip already fails)
+    if plan.rb > 0 && !total.has("io_reader_refill") && !total.has("io_short_reads") {
+        for f in REFILL_CUTS.iter().chain(&["refill_met_end_of_input", "refill_at_the_planned_position"]) {
+            if total.get(f) == 0 {
+                run.machinery_failure(&format!("no padded input made the Reader refill its full buffer at such a place of the tensors' text: {f} = 0"));
+            }
+        }
+    }
     if total.get("io_cases_with_pending_output") != expected_shapes * (IO_TYPES.len() * fills.levels.len()) as u64 {
         run.machinery_failure("not every shape and element type was written at every fill level");
     }
@@ -1917,6 +2356,7 @@ fn main() {
     run.assume("clone / clone_from: the statement does not name Clone; a tensor obtained through the type's public Clone impl is taken to be a tensor in the statement's sense (it has a shape, dims(), and must index it row-major with per-dimension checks, iterate, write and read back, and compare accordingly), and `a.clone_from(&b)` is taken, per the std contract of Clone, to leave `a` equal to `b.clone()` — so the copy is held to the source's shape and elements. Nothing else about Clone (capacity reuse, allocation) is demanded");
     run.assume("equality across shapes can only be expressed for equal rank (different ranks are different types)");
     run.assume("Writer history: the statement's round trip is taken to hold wherever in a Writer's output the tensor is written (several results written through one Writer is the library's normal use); the text is read back from the position where the tensor starts, the filler itself is not parsed. Fill levels are enumerated only near the observed buffer boundary (and 0) and only for the first rotation of each value list; the Writer's own behaviour at all fill levels is C09's subject. This engine is built without debug assertions only (in a debug-assertions build the Writer flushes after every item and has no fill level)");
+    run.assume("Reader side: the statement's round trip is taken to hold wherever in a Reader's input the tensor's text lies (several inputs read through one Reader is the library's normal use) and however the source delivers it: `std::io::Read` allows a read to return fewer bytes than asked for (pipes, sockets), and only a return of 0 means end of input; the piecewise source used here never returns 0 before the end and never fails. Two tensors and the padding token are separated by a single newline written with write_char, as a program printing several results would");
     run.assume("elem_*: the statement does not restrict the element type; T is taken to range over any type with the bounds the API asks for (Clone for new/from_slice, PartialEq for ==), including zero-sized ones. 'elements agree' is judged by T's own ==, and only element types with a reflexive == are used (no NaN-like values), so a tensor must equal itself and its clone. The IO round trip is not part of these families ((), the structs and bool have no Readable/Writable impl)");
     run.assume("a panic from the Vec bounds check counts as 'rejected with a panic' for out-of-range indices whose flattened offset is outside the storage; for offsets inside the storage only the per-dimension check can produce it");
     run.finish(&confirm)
